@@ -20,9 +20,10 @@ import (
 	"verif/harness/world"
 )
 
-var tap = &probe.LogTap{}
+// Tap receives every debug log line of the SDK in processes that import this package.
+var Tap = &probe.LogTap{}
 
-func init() { log.SetLogger(tap) }
+func init() { log.SetLogger(Tap) }
 
 var newSessionRe = regexp.MustCompile(`\[newSession\] for id (.*)\. Session\((0x[0-9a-f]+)\)\{Encryption\((0x[0-9a-f]+)\)\}`)
 
@@ -44,8 +45,8 @@ func NewTdMon() *TdMon {
 }
 
 func (m *TdMon) Install() {
-	tap.SetKeep(false)
-	tap.SetScan(func(line string) {
+	Tap.SetKeep(false)
+	Tap.SetScan(func(line string) {
 		if g := newSessionRe.FindStringSubmatch(line); g != nil {
 			m.Mu.Lock()
 			m.next++
@@ -76,7 +77,7 @@ func (m *TdMon) Install() {
 
 func (m *TdMon) Uninstall() {
 	probe.SetHookSink(nil)
-	tap.SetScan(nil)
+	Tap.SetScan(nil)
 }
 
 // hold adjusts the holder count of the live session s and returns its incarnation.
